@@ -13,7 +13,7 @@ import (
 // C11 uses C06Case with open polylines (>= 2 points each).
 
 func drawC11(t *rapid.T) *C06Case {
-	R := rapid.SampledFrom([]int64{20, 1000, 1000000, 1 << 27}).Draw(t, "R")
+	R := rapid.SampledFrom([]int64{20, 1000, 1000000, 1 << 27, 1 << 33, 1 << 40}).Draw(t, "R") // no magnitude limit in the statement; int64 products wrap from 2^31.5 on
 	c := &C06Case{Rect: drawRect(t, R)}
 	np := rapid.IntRange(1, 3).Draw(t, "nPaths")
 	for i := 0; i < np; i++ {
@@ -48,8 +48,10 @@ func polyParam(p Path, q P, from float64, tol float64) float64 {
 			t = (float64(q.X-a.X)*dx + float64(q.Y-a.Y)*dy) / l2
 			t = math.Max(tmin, math.Min(1, t))
 		}
-		px, py := float64(a.X)+t*dx, float64(a.Y)+t*dy
-		if math.Hypot(float64(q.X)-px, float64(q.Y)-py) <= tol {
+		// relative to a: absolute float coordinates lose 2^-13 at 2^40 (a false alarm of the first
+		// run with magnitudes 2^33 / 2^40: distance 0.99996 computed as 1.00002)
+		rx, ry := float64(q.X-a.X)-t*dx, float64(q.Y-a.Y)-t*dy
+		if math.Hypot(rx, ry) <= tol {
 			return float64(i) + t
 		}
 	}
